@@ -374,7 +374,11 @@ func replayNative(ctx *RunCtx, e Entry, v engine.Violation, dir string) (bool, s
 	repl := map[string]string{}
 	var pkgDir, pkgName string
 	for _, hf := range ctx.Check.Harness {
-		if strings.HasSuffix(e.PkgPath, hf.RepoDir) || (hf.RepoDir == "." || hf.RepoDir == "") {
+		full := "github.com/goose-lang/goose"
+		if hf.RepoDir != "." && hf.RepoDir != "" {
+			full += "/" + hf.RepoDir
+		}
+		if e.PkgPath == full {
 			pkgDir, pkgName = hf.RepoDir, hf.Pkg
 		}
 	}
